@@ -8,7 +8,7 @@ from sim import Config, var, W, R, P, A, N, D, RW
 PROP = "C16"
 LEVEL = "exploration"
 RULE = ("initial (1005h, 1006h) x timer frequency {100 Hz, 1 kHz, 10 kHz} x histories of SDO writes to 1005h/1006h (start, stop, re-time, id "
-        "change while producing / idle, unresolvable and very long periods up to 2^32-1 us, valid writes after refused ones), received SYNC "
+        "change while producing / idle, unresolvable and very long periods up to 2^32-1 us, valid writes after refused ones, writes while the expired SYNC event is served but not yet processed), received SYNC "
         "and near-miss frames, NMT commands incl. reset communication, ticks; produced (tick, id, dlc) SYNC frames compared tick by tick "
         "with the reference schedule, SDO verdicts with the write rules, and the reaction of a synchronous TPDO (type n) and RPDO to every "
         "received SYNC with the reference counters; non-trivial = history with >= 2 produced SYNCs and >= 1 accepted write, or >= 3 "
@@ -207,6 +207,39 @@ def run_history(res, exe, rng, first):
                 err = observe(t0, evs)
                 if err:
                     fail("schedule/" + ("after-write" if m.unknown_since is None else "after-reset"), err); return
+            elif x < 0.39:
+                # production stopped / re-timed while the expired SYNC event is served but not yet processed: the pending SYNC may
+                # still go out in that processing step (it fell due on this tick); from the write on only the new setting counts
+                if not (m.allowed() and m.producing() and m.P > 0 and m.base is not None):
+                    continue
+                d = m.P - ((sim.tick - m.base) % m.P)
+                if d > 400:
+                    continue
+                evs = sim.cmd("svc %d" % d)
+                if any(cid == m.sid() for (t, cid, dlc, dd, f) in S.txs(evs)):
+                    fail("schedule/deferred", "SYNC sent by the tick service itself"); return
+                T = sim.tick
+                sid_before = m.sid()
+                if rng.random() < 0.5:
+                    v = m.cobid ^ 0x40000000
+                    script.append("svc %d; write 1005 = %x with the SYNC event pending; tproc" % (d, v))
+                    want = m.write_1005(v, T)
+                    code, evs = S.sdo_write(sim, nid, 0x1005, 0, v, 4)
+                else:
+                    c = rng.choice(good[:7])
+                    script.append("svc %d; write 1006 = %d with the SYNC event pending; tproc" % (d, c))
+                    want = m.write_1006(c, T)
+                    code, evs = S.sdo_write(sim, nid, 0x1006, 0, c, 4)
+                if code != want:
+                    fail("verdict/pending", "write with pending SYNC event answered %r, reference %r" % (code, want)); return
+                acc += 1
+                evs = evs + sim.cmd("tproc")
+                sy = [(t, dlc) for (t, cid, dlc, dd, f) in S.txs(evs) if cid == sid_before]
+                if len(sy) > 1 or any(t != T or dlc != 0 for t, dlc in sy):
+                    fail("schedule/deferred-write", "write with the expired SYNC event pending (tick %d): SYNC frames %r" % (T, sy)); return
+                m.count += len(sy)
+                res.counters["writes_with_pending_event"] += 1
+                res.counters["pending_sync_still_sent"] += len(sy)
             elif x < 0.52:
                 # write 1005h
                 if m.mode not in (PREOP, OP):
